@@ -380,8 +380,9 @@ def check_self(c):
         return ("C05:self:equal-grid", f"sampling on an equal grid changes the data by {(out.tensor() - data).abs().max():.3e}")
     # sampling is a function of image and grid: a second call (constant padding, which is emulated by subtract / sample / add)
     # returns the same values and leaves the image alone
-    first = im.sample(g2, mode=c["mode"], padding=7.5).tensor().clone()
-    second = im.sample(g2, mode=c["mode"], padding=7.5).tensor()
+    g3 = g2.center(g2.center() + 0.3 * g2.spacing())       # a different grid: `sample` really resamples
+    first = im.sample(g3, mode=c["mode"], padding=7.5).tensor().clone()
+    second = im.sample(g3, mode=c["mode"], padding=7.5).tensor()
     if (first - second).abs().max() > 0 or (im.tensor() - data).abs().max() > 0:
         return ("C05:self:repeat", f"sampling the same image twice (constant padding) gives results that differ by "
                 f"{float((first - second).abs().max()):.3e}; the image changed by {float((im.tensor() - data).abs().max()):.3e}")
